@@ -208,7 +208,7 @@ def families(asm: dict) -> Tuple[Dict[Tuple[int, int], int], Dict[int, List[Tupl
     return fam_of, members
 
 
-CHOP_KINDS = ["count", "count_c2c", "count_total", "start_c2c", "count_start", "count_end", "multi", "multi_equal"]
+CHOP_KINDS = ["count", "count_c2c", "count_total", "start_c2c", "end_c2c", "count_start", "count_end", "multi", "multi_equal", "multi_size"]
 
 
 def gen_chop(rng: random.Random, kinds=CHOP_KINDS, count: Optional[int] = None) -> List[dict]:
@@ -226,6 +226,16 @@ def gen_chop(rng: random.Random, kinds=CHOP_KINDS, count: Optional[int] = None) 
         return [{"count": n, "total_expansion": rng.choice([0.25, 0.5, 2.0, 4.0]), "preserve": pres}]
     if kind == "start_c2c":
         return [{"start_size": rng.choice([0.05, 0.08, 0.11]), "c2c_expansion": rng.choice([1.0, 1.1, 1.2]), "preserve": pres}]
+    if kind == "end_c2c":
+        # (shrinking or equal cells towards the end: always reachable)
+        return [{"end_size": rng.choice([0.05, 0.08, 0.11]), "c2c_expansion": rng.choice([0.85, 0.9, 1.0]), "preserve": pres}]
+    if kind == "multi_size":
+        # a size-based first section: its count is resolved on (average length) x (length ratio)
+        r = rng.choice([0.3, 0.4, 0.5])
+        return [
+            {"length_ratio": r, "start_size": rng.choice([0.04, 0.06]), "c2c_expansion": rng.choice([1.0, 1.1, 1.2]), "preserve": pres},
+            {"length_ratio": 1 - r, "count": max(2, n // 2), "total_expansion": rng.choice([0.5, 1.0])},
+        ]
     if kind == "count_start":
         return [{"count": n, "start_size": rng.choice([0.03, 0.05, 0.07]), "preserve": pres}]
     if kind == "count_end":
@@ -879,7 +889,7 @@ def solve_r_for_start(L: float, n: int, s: float) -> float:
         return 1.0
     f = lambda lr: s * gp_sum(math.exp(lr), n) - L
     lo, hi = -12.0, 12.0
-    for _ in range(200):
+    for _ in range(64):  # 24 / 2**64: below the spacing of floats
         mid = (lo + hi) / 2
         if f(mid) > 0:
             hi = mid
@@ -913,6 +923,7 @@ def resolve_chops(case: dict, internals: dict) -> Tuple[List[dict], Optional[str
                     "count": int(n),
                     "preserve": c.preserve,
                     "value": float(c.results[c.preserve]),
+                    "kw": dict(kw),
                 }
             )
     return out, None
@@ -972,6 +983,93 @@ def model_request(internals: dict, chops: List[dict]) -> str:
             for w in range(12 * n):
                 ev.append(core.rat(expansion(c, inv, internals["lens"][w])))
     return f"c01.run {n} {verts} {cl} {nbrs} {coinc} {len(chops)} [{','.join(ev)}]"
+
+
+CHOP_FIELDS = ("count", "start_size", "end_size", "c2c_expansion", "total_expansion")
+GEO_TOL = "cnt:1/1000000000,root:1/1000000000"
+
+
+def geo_request(internals: dict, chops: List[dict]) -> str:
+    """Request `c04.run` of the composed model (M-PROP with C03's chop calculator inside): vertex indexes, wire lengths
+    and the chop arguments as the user typed them.  Counts, preserved quantities, expansions per wire and the schedule
+    are computed by the model.  Supplied are only the answers of the numeric solvers (`T**(1/(n-1))`, the root of
+    `s (1 + c + … + c^(n-1)) = L`), found here by bisection, which the model validates against the exact
+    specification of the step; and, for size+ratio chops, the count the library found, which the model uses only
+    where its own exact count differs from it by float rounding of a whole-number quotient."""
+    n = len(internals["verts"])
+    lens = internals["lens"]
+    verts = ";".join(",".join(map(str, v)) for v in internals["verts"])
+    ents, oa, ow = [], [], []
+    for c in chops:
+        kw = c["kw"]
+        keys = {k for k in CHOP_FIELDS if kw.get(k) is not None}
+        fs = ",".join(f"{k}:{core.rat(kw[k])}" for k in CHOP_FIELDS if kw.get(k) is not None) or "-"
+        ents.append(f"{c['x']};{core.rat(c['ratio'])};{c['preserve']};{fs}")
+        nn = c["count"]
+        x = c["x"]
+        La = sum(lens[4 * x + k] for k in range(4)) / 4 * c["ratio"]
+        o = None
+        try:
+            if keys == {"count", "total_expansion"} and nn >= 2:
+                o = "c:" + core.rat(kw["total_expansion"] ** (1 / (nn - 1)))
+            elif keys == {"count", "start_size"} and nn >= 2 and kw["start_size"] < La:
+                o = "c:" + core.rat(solve_r_for_start(La, nn, kw["start_size"]))
+            elif keys == {"count", "end_size"} and nn >= 2 and kw["end_size"] < La:
+                o = "c:" + core.rat(1 / solve_r_for_start(La, nn, kw["end_size"]))
+            elif "count" not in keys:
+                o = f"n:{nn}"
+        except (OverflowError, ZeroDivisionError, ValueError):
+            o = None
+        if o:
+            oa.append(f"{c['id']};{o}")
+        if c["preserve"] != "c2c_expansion" and nn >= 2:
+            v = c["value"]
+            for inv in (0, 1):
+                start_like = (c["preserve"] == "start_size") != bool(inv)
+                for w in range(12 * n):
+                    L = lens[w] * c["ratio"]
+                    if not 0 < v < L * (1 - 1e-9):
+                        continue
+                    r = solve_r_for_start(L, nn, v)
+                    ow.append(f"{c['id']};{inv};{w};c:{core.rat(r if start_like else 1 / r)}")
+    ls = ",".join(core.rat(x) for x in lens)
+    return f"c04.run {n} {verts} [{ls}] {'|'.join(ents) or '-'} {'|'.join(oa) or '-'} {'|'.join(ow) or '-'} {GEO_TOL}"
+
+
+def compare_geo(obs: dict, ans: str, level: str = "full") -> Optional[str]:
+    """The composed model against the implementation: outcome class, the resolution of every user chop (count and
+    preserved quantity), written counts, every wire's specification.  Returns None, a disagreement, or the string
+    'boundary' (never: boundaries are resolved inside the model and only counted)."""
+    m = re.fullmatch(r"(.*) R\[(.*)\] B\[(.*)\]", ans)
+    if not m:
+        return "unparsable answer of the composed model: " + ans[:120]
+    head, rs, _bs = m.groups()
+    # resolution of the user's chops (count on the average length, preserved quantity)
+    for ent, c in zip(rs.split("|") if rs else [], obs["chops"]):
+        cid, cnt, val = ent.split(":")
+        if cnt == "-":
+            continue  # the model could not resolve it: its answer is `err chop:<id>:…`, judged below
+        if int(cnt) != c["count"]:
+            return f"count of chop {c['kw']} on axis {c['x']}: implementation {c['count']}, composed model {cnt}"
+        if val != "None":
+            mv = float(core.parse_rat(val))
+            if abs(mv - c["value"]) > 1e-9 * max(abs(mv), abs(c["value"])):
+                return f"preserved {c['preserve']} of chop {c['kw']}: implementation {c['value']}, composed model {mv}"
+    if head.startswith("err "):
+        kind = head[4:]
+        oc = obs["outcome"]
+        if kind.startswith(("chop:", "wire:", "trial:")):
+            if oc in ("ok", "UndefinedGradingsError", "InconsistentGradingsError"):
+                return f"composed model: a chop evaluation raises ({kind}), implementation {oc}"
+            if kind.startswith("chop:") and kind.split(":")[2] not in (oc, "Numeric"):
+                return f"composed model: {kind}, implementation raised {oc}"
+            return None
+        if oc not in ERRMAP:
+            return None  # the implementation raised inside a calculation before the loop could end (error precedence)
+    elif obs["outcome"] not in ERRMAP:
+        return f"implementation raised {obs['outcome']} ({obs.get('message')}), composed model {head[:60]}"
+    why = compare_with_model(obs, head, level=level)
+    return ("composed model: " + why) if why else None
 
 
 def prepare(case: dict, order=None, rots=None):
